@@ -11,6 +11,7 @@ import numpy as np
 from .lie_common import lib_call
 
 SHARDS = {"quick": 16, "thorough": 16}
+REQUIRED_REACH = ['Publisher.publish', 'Subscriber.__init__', 'Core.set_param', 'Param.update', 'Logger.run', 'Logger.callback', 'AttitudeEstimator.imu_callback', 'AttitudeEstimator.mag_callback']
 RULE = ("each case = one random bus history: 2-7 topics (Imu/Mag/Attitude types), 0-4 subscribers per topic incl. topics nobody "
         "subscribes to and subscriptions to topics nobody publishes, publisher processes with random periods (equal periods -> "
         "simultaneous events, zero-delay bursts), callbacks that publish synchronously on another topic (nesting), wrong-type "
